@@ -116,8 +116,10 @@ def install_surrogate_root(ds, jnp):
     ps = jnp.asarray(n if padding_start is None else padding_start).astype(jnp.float32)
     out = (x * 0.5 + pf * 0.25) + (jnp.eye(n, dtype=jnp.float32) * (1.0 + ps * 0.125)
                                    + row[:, None] * 0.015625)
+    # a statistic whose first diagonal entry exceeds 2^20 "fails" (error 1 > every threshold used):
+    # lets a history make SOME roots of a tree fail while the others succeed, still elementwise
     metrics = ds.TrainingMetrics(
-        inverse_pth_root_errors=pf * 0.0009765625,
+        inverse_pth_root_errors=pf * 0.0009765625 + jnp.where(x[0, 0] > 1048576.0, 1.0, 0.0),
         inverse_pth_root_iters=ps,
         final_error_ratio=x[0, 0] * 0.5,
         max_eigen_value=x[n - 1, n - 1] * 2.0)
@@ -220,6 +222,18 @@ def case_pmap(ds, jax, jnp, c):
   params = _normal_tree(rng, shapes)
   steps = c.get("steps", 3)
   grads = [_normal_tree(rng, shapes) for _ in range(steps)]
+  if c.get("reject_leaf") is not None:
+    # from step 1 on one leaf's gradients are 2^12 times larger: its statistics cross the surrogate's
+    # failure bound, so its roots are rejected (old preconditioner kept) while the other leaves' are
+    # accepted -- which statistic an error belongs to must not depend on the device count
+    names = sorted(grads[0].keys()) if isinstance(grads[0], dict) else None
+    for t in range(1, steps):
+      if names is not None:
+        k = names[c["reject_leaf"] % len(names)]
+        grads[t] = dict(grads[t], **{k: grads[t][k] * 4096.0})
+      else:
+        i = c["reject_leaf"] % len(grads[t])
+        grads[t] = type(grads[t])(g * 4096.0 if j == i else g for j, g in enumerate(grads[t]))
   kw = _make_kw(ds, c["kw"])
   out = dict(runs={}, ok=True, why=[])
   ref = None
